@@ -40,7 +40,7 @@ from ..width import cw, sw
 ID = "C07"
 LEVEL = "exploration"
 ENGINE = "E1"
-CAP_S = {"quick": 900, "thorough": 3000}
+CAP_S = {"quick": 600, "thorough": 7200}
 TECHNIQUE = ("bounded-exhaustive enumeration of table descriptions (shape x cell filling x deviation-bounded "
              "option vectors x every width from the structural minimum) on the real Table, judged by an "
              "independent rectangle / column-span / row-block reference")
@@ -358,9 +358,11 @@ def judge(desc, W, lines):
             exp_judged = True
             if width != want:
                 key = "expand/narrower-than-available" if width < want else "expand/wider-than-available"
-                if _topt(desc, "min_width") is not None:
+                # a table min_width can only explain a table that stays too narrow,
+                # a column min_width only one that gets too wide: separate finding keys
+                if width < want and _topt(desc, "min_width") is not None:
                     key += "/table-min_width-set"
-                if any(_copt(desc, i, "min_width") is not None for i in range(n)):
+                if width > want and any(_copt(desc, i, "min_width") is not None for i in range(n)):
                     key += "/column-min_width-set"
                 v.bad(key, "table asked to fill %d cells (struct_min %d) but its lines are %d cells wide" % (want, smin, width))
 
